@@ -54,7 +54,7 @@ def applicable(e, cap, na, nb):
 
 def uw(blk):
     d = {'ll_memset.0': 130, 'll_memcpy.0': 130, 'll_memmove.0': 130, 'll_memmove.1': 130}   # closures of the case-split lambdas are copied by value (up to ~16 captured references)
-    for f, n in (('d_sym_block', blk), ('lg_register', 18), ('lg_expect', 18)):
+    for f, n in (('d_sym_block', blk), ('lg_register', 2 * 6 + 4), ('lg_expect', 2 * 6 + 4)):   # LG_SLOTS = 2*CAP+2 <= 14
         for i in range(4): d['%s.%d' % (f, i)] = n
     return d
 
@@ -62,12 +62,15 @@ def uw(blk):
 def queries(tier, prop='C03'):
     ub = prop == 'C02'
     out = []
+    nops = {0: 12, 1: 8, 2: 11}   # static_vector history op codes per flavour (driver.cpp SV_NOPS)
     if tier == 'quick':
         grid = [(0, 3), (1, 2), (2, 2)]
-        hist = [('q_sv_hist', 0, 2, 2, na) for na in (0, 1, 2)] + [('q_iv_hist', 0, 2, 2, na) for na in (0, 1, 2)]
+        hist = [('q_sv_hist', 0, 2, 2, 1, f) for f in range(nops[0])] + [('q_iv_hist', 0, 2, 2, na, None) for na in (0, 1, 2)]
     else:
         grid = [(0, c) for c in (0, 1, 2, 3, 4)] + [(f, c) for f in (1, 2) for c in (1, 2, 3, 4)]
-        hist = [(e, f, 2, 3, na) for e in ('q_sv_hist', 'q_iv_hist') for f in (0, 1, 2) for na in (0, 1, 2)] + [(e, 0, 3, 2, na) for e in ('q_sv_hist', 'q_iv_hist') for na in (0, 1, 2, 3)]
+        hist = [('q_sv_hist', fl, 2, 2, na, f) for fl in (0, 1, 2) for na in (0, 1, 2) for f in range(nops[fl])]
+        hist += [('q_sv_hist', 0, 1, 3, na, f) for na in (0, 1) for f in range(nops[0])]
+        hist += [('q_iv_hist', fl, 2, 3, na, None) for fl in (0, 1, 2) for na in (0, 1, 2)] + [('q_iv_hist', 0, 3, 2, na, None) for na in (0, 1, 2, 3)]
     if ub:   # C02: the UB build of a subset (copy+move elements, one capacity)
         grid = [(0, 2)] if tier == 'quick' else [(0, 3), (1, 2), (2, 2)]
         hist = []
@@ -78,11 +81,13 @@ def queries(tier, prop='C03'):
                 for e in ALL:
                     if not applicable(e, cap, na, nb): continue
                     if fl == 1 and e in NEED_COPY: continue
-                    q = dict(entry='q_' + e, cfg={'FLAV': fl, 'CAP': cap, 'NA': na, 'NB': nb}, unwind=cap + 3, unwindset=uw(objsz + 2),
+                    q = dict(entry='q_' + e, cfg={'FLAV': fl, 'CAP': cap, 'NA': na, 'NB': nb, 'LG_SLOTS': 2 * cap + 2}, unwind=cap + 3, unwindset=uw(objsz + 2),
                              budget=120 if tier == 'quick' else 600, ub=ub, nofunc=ub, solver=SOLVER.get(e, 'minisat'))
                     if e in KF_WHOLE and KF_WHOLE[e][1](na): q['kf_only'] = KF_WHOLE[e][0]
                     out.append(q)
-    for (e, fl, cap, k, na) in hist:
-        out.append(dict(entry=e, cfg={'FLAV': fl, 'CAP': cap, 'NA': na, 'NB': 0, 'KSTEPS': k}, unwind=cap + 3, unwindset=uw(cap * 8 + 18),
+    for (e, fl, cap, k, na, first) in hist:
+        cfg = {'FLAV': fl, 'CAP': cap, 'NA': na, 'NB': 0, 'KSTEPS': k, 'LG_SLOTS': 2 * cap + 2}
+        if first is not None: cfg['FIRST'] = first
+        out.append(dict(entry=e, cfg=cfg, unwind=cap + 3, unwindset=uw(cap * 8 + 18), object_bits=14,
                         budget=300 if tier == 'quick' else 2400, ub=ub, nofunc=ub))
     return out
